@@ -232,7 +232,11 @@ func TestC13Rand(t *testing.T) {
 				l, r = r, l
 			}
 		}
-		c := DiffCase{L: l, R: r, Lay: lay, Share: rapid.IntRange(0, 2).Draw(t, "share") == 0, N: rapid.SampledFrom([]int{0, 1, 1, 2, 2, 3, 3, 5, 8, 50, -1, math.MaxInt, math.MaxInt - 2}).Draw(t, "n")}
+		again := 0
+		if rapid.IntRange(0, 3).Draw(t, "againP") == 0 {
+			again = rapid.IntRange(1, 3).Draw(t, "again")
+		}
+		c := DiffCase{L: l, R: r, Lay: lay, Again: again, Share: rapid.IntRange(0, 2).Draw(t, "share") == 0, N: rapid.SampledFrom([]int{0, 1, 1, 2, 2, 3, 3, 5, 8, 50, -1, math.MaxInt, math.MaxInt - 2}).Draw(t, "n")}
 		genSteps(t, &c)
 		return c
 	}, runC13)
